@@ -80,6 +80,33 @@ func c14(c *Ctx) {
 		c.ruleMustPass(r, f, nil, "sqlEngine.CopyCatalogToTx", callTo("embedded/sql.(*Engine).CopyCatalogToTx"), nil, false)
 		c.ruleMustPass(r, f, nil, "documentEngine.CopyCatalogToTx", callTo("embedded/document.(*Engine).CopyCatalogToTx"), nil, false)
 	}
+	// every catalog loader doubles as the copier: what it reads under copyToTx it re-writes into the copy transaction.
+	// A loader that parses a kind of catalog entry without re-writing it leaves the only stored copy of that entry in
+	// the part of the value log that is about to be discarded (the catalog then fails to load after a restart).
+	nl := 0
+	for _, f := range c.allFns {
+		if !fnInPkgs(f, []string{"embedded/sql"}) || f.Parent() != nil || len(f.Blocks) == 0 {
+			continue
+		}
+		has := false
+		for _, p := range f.Params {
+			if p.Name() == "copyToTx" {
+				has = true
+			}
+		}
+		if !has {
+			continue
+		}
+		nl++
+		sets := 0
+		for _, g := range append([]*ssa.Function{f}, allAnon(f)...) {
+			sets += len(sites(g, callTo("embedded/store.(*OngoingTx).Set")))
+		}
+		c.check(sets > 0, r, fnName(f)+":copies-what-it-loads", c.pos(f.Pos()), fmt.Sprintf("%d re-write site(s)", sets), "a catalog loader with a copyToTx mode never writes into the copy transaction: the entries it loads are lost by value-log truncation")
+	}
+	if nl < 4 {
+		c.undecided(r, "catalog-loaders", fmt.Sprintf("%d catalog loaders with a copyToTx mode found (4 confirmed by hand)", nl))
+	}
 	if f := c.mustFn(r, "pkg/database.(*db).CopySQLCatalog"); f != nil {
 		c.ruleMustPass(r, f, nil, "CopyCatalogToTx", callTo("pkg/database.(*db).CopyCatalogToTx"), nil, false)
 		c.ruleMustPass(r, f, nil, "tx.Commit", callTo("embedded/store.(*OngoingTx).Commit"), nil, false)
